@@ -36,7 +36,7 @@ BOUNDS = {
 
 SEED = int(os.environ.get("VERIF_SEED", "0") or 0)
 TOL = 1e-6
-QUICK_SETS = ["t3+1", "q4", "q4+1", "t3+2", "p5", "p5+1", "q4+2", "h6"]
+QUICK_SETS = ["t3+1", "q4", "q4+1", "t3+2", "p5", "p5+1", "q4+2"]
 ALL_SETS = ["t3+1", "q4", "q4+1", "t3+2", "p5", "p5+1", "q4+2", "h6", "h6+1", "p5+2", "h7", "h6+2", "h8"]
 PINNED_COUNTS = {"t3+1": 1, "q4": 2, "q4+1": 3, "t3+2": 2, "p5": 5, "p5+1": 11, "q4+2": 6, "h6": 14, "h6+1": 30,
                  "p5+2": 25, "h7": 42, "h6+2": 108, "h8": 132}
@@ -68,19 +68,19 @@ def _closed():
     return out
 
 
-def _configs(el, flat=False):
-    """order x n_smooth in full; the boolean switches within <= 2 deviations of the defaults (all True)."""
+def _configs(el, maxdev=2, flat=False):
+    """order x n_smooth in full; the boolean switches within <= maxdev deviations of the defaults (all True)."""
     out = []
     if flat:
         for order in range(1, 7):
             for ns in (0, 3):
-                for cot in (True, False):
+                for cot in ((True, False) if maxdev >= 2 else (True,)):
                     out.append({"el": el, "order": order, "ns": ns, "feat": True, "cot": cot, "cad": False, "sn": True, "flat": True})
         return out
     switches = ["feat", "cot"] + (["cad", "sn"] if el == "vertices" else [])
     for order in range(1, 7):
         for ns in (0, 1, 3):
-            for k in (0, 1, 2):
+            for k in range(maxdev + 1):
                 for dev in itertools.combinations(switches, k):
                     c = {"el": el, "order": order, "ns": ns, "feat": True, "cot": True, "cad": True, "sn": True, "flat": False}
                     for d in dev:
@@ -92,75 +92,99 @@ def _configs(el, flat=False):
 
 
 def _inv_configs(level):
-    """configurations of the invariance clauses: smoothing off, cad_correction off."""
+    """configurations of the invariance clauses: smoothing off, cad_correction off, order x element in full.
+    level 0: 12 (vertices: border features only, faces: features on); 1: features on/off (24); 2: + uniform weights,
+    + smooth_normals off (42)."""
     out = []
     for el in ("vertices", "faces"):
         for order in range(1, 7):
             base = {"el": el, "order": order, "ns": 0, "feat": True, "cot": True, "cad": False, "sn": True, "flat": False}
+            if level == 0:
+                out.append(dict(base, feat=(el == "faces")))
+                continue
             out.append(base)
-            if level >= 1:
-                out.append(dict(base, feat=False))
+            out.append(dict(base, feat=False))
+            if level >= 2:
                 out.append(dict(base, cot=False))
                 if el == "vertices":
                     out.append(dict(base, sn=False))
     return out
 
 
+def _transpositions(n):
+    out = []
+    for a in range(n):
+        for b in range(a + 1, n):
+            q = list(range(n)); q[a], q[b] = q[b], q[a]; out.append(q)
+    return out
+
+
 def tasks(tier):
     from mc import c18_lib as L
-    from mc import families as F
     out = []
-    sets = QUICK_SETS if tier == "quick" else ALL_SETS
-    meshes = []       # (name, n, pts2d or None, pts3d, faces)
+    quick = tier == "quick"
+    sets = QUICK_SETS if quick else ALL_SETS
+    fam = {}          # point set -> [(name, n, P, faces)]
     for s in sets:
         P, tris = _tri_family(s)
-        for i, tri in enumerate(tris):
-            meshes.append((f"{s}#{i}", len(P), P, tri))
-    # ---- sweep of all configurations, one task per (mesh, element)
+        fam[s] = [(f"{s}#{i}", len(P), P, tri) for i, tri in enumerate(tris)]
+    meshes = [m for s in sets for m in fam[s]]
+    # ---- sweep of the configurations, one task per (mesh, element)
     for name, n, P, tri in meshes:
+        maxdev = 1 if (quick or n >= 8) else 2
         for el in ("vertices", "faces"):
-            out.append({"kind": "sweep", "mesh": name, "pts": L.lift(P), "faces": tri, "el": el, "planar": [list(p) for p in P]})
+            out.append({"kind": "sweep", "mesh": name, "pts": L.lift(P), "faces": tri, "el": el, "planar": [list(p) for p in P],
+                        "maxdev": maxdev})
     for k, l in ((3, 3), (3, 4)):
         p, f = _grid(k, l)
         for el in ("vertices", "faces"):
             out.append({"kind": "sweep", "mesh": f"grid{k}x{l}", "pts": p, "faces": f, "el": el,
-                        "planar": [[q[0], q[1]] for q in p]})
+                        "planar": [[q[0], q[1]] for q in p], "maxdev": 1 if quick else 2})
     for name, p, f in _closed():
         for el in ("vertices", "faces"):
-            out.append({"kind": "sweep", "mesh": name, "pts": p, "faces": f, "el": el, "planar": None})
-    # ---- relabelings
-    nfull = 5 if tier == "quick" else 6
-    ntrans = 6 if tier == "quick" else 8
+            out.append({"kind": "sweep", "mesh": name, "pts": p, "faces": f, "el": el, "planar": None, "maxdev": 1 if quick else 2})
+    # ---- relabelings: (perms, level of the configuration set)
     CH = 40
-    for name, n, P, tri in meshes:
-        if n <= nfull:
-            perms = [list(p) for p in itertools.permutations(range(n))][1:]
-            level = 1 if n <= 4 else 0
-        elif n <= ntrans:
-            perms = []
-            for a in range(n):
-                for b in range(a + 1, n):
-                    q = list(range(n)); q[a], q[b] = q[b], q[a]; perms.append(q)
-            level = 0 if tier == "quick" else 1
-        else:
-            continue
-        for i in range(0, len(perms), CH):
-            out.append({"kind": "relabel", "mesh": name, "pts": L.lift(P), "faces": tri, "perms": perms[i:i + CH], "level": level})
-    if tier == "thorough":
+    for s in sets:
+        for idx, (name, n, P, tri) in enumerate(fam[s]):
+            last = len(fam[s]) - 1
+            if n <= 4:
+                perms, level = [list(p) for p in itertools.permutations(range(n))][1:], 2
+            elif n == 5:
+                if quick:
+                    full = idx == last
+                    perms, level = ([list(p) for p in itertools.permutations(range(n))][1:] if full else _transpositions(n)), 0
+                else:
+                    perms, level = [list(p) for p in itertools.permutations(range(n))][1:], 1
+            elif n == 6:
+                if quick:
+                    continue
+                if idx in (0, last):
+                    perms, level = [list(p) for p in itertools.permutations(range(n))][1:], 0
+                else:
+                    perms, level = _transpositions(n), 2
+            elif n == 7:
+                if quick or idx % 2:
+                    continue
+                perms, level = _transpositions(n), 0
+            else:
+                if quick or idx % 6:
+                    continue
+                perms, level = _transpositions(n), 0
+            for i in range(0, len(perms), CH):
+                out.append({"kind": "relabel", "mesh": name, "pts": L.lift(P), "faces": tri, "perms": perms[i:i + CH], "level": level})
+    if not quick:
         p, f = _grid(3, 3)
-        perms = []
-        for a in range(9):
-            for b in range(a + 1, 9):
-                q = list(range(9)); q[a], q[b] = q[b], q[a]; perms.append(q)
-        out.append({"kind": "relabel", "mesh": "grid3x3", "pts": p, "faces": f, "perms": perms, "level": 1})
-    # ---- face listing deviations
-    for name, n, P, tri in meshes:
-        if tier == "quick":
-            dev = 2 if n <= 4 else (1 if n == 5 else 0)
-        else:
-            dev = 2 if n <= 6 else 1
-        if dev:
-            out.append({"kind": "listing", "mesh": name, "pts": L.lift(P), "faces": tri, "dev": dev})
+        out.append({"kind": "relabel", "mesh": "grid3x3", "pts": p, "faces": f, "perms": _transpositions(9), "level": 1})
+    # ---- face listing deviations (start rotations of faces, swaps of adjacent faces)
+    for s in sets:
+        for idx, (name, n, P, tri) in enumerate(fam[s]):
+            if quick:
+                dev = 2 if n <= 4 else (1 if n == 5 else 0)
+            else:
+                dev = 2 if n <= 5 else (1 if (n == 6 or idx % 6 == 0) else 0)
+            if dev:
+                out.append({"kind": "listing", "mesh": name, "pts": L.lift(P), "faces": tri, "dev": dev})
     return out
 
 
@@ -311,17 +335,18 @@ def _check(rep: Report, M, name, pts, faces, cfg, want_sing=True, relabel_tag=No
     zero_free = set()
     skip_inv = None
     oracle = None
-    if free and fixed and cfg["ns"] == 0:
+    if free and fixed and not geo.closed:
         if el == "faces":
             Lm, worst = L.face_connection_laplacian(geo, bases, order, cfg["cot"])
         else:
             Lm, worst = L.vertex_connection_laplacian(geo, f.conn.transport, order, cfg["cot"]), math.inf
         x, cond = L.harmonic_extension(Lm, free, fixed, var0[fixed]) if worst > 1e-6 else (None, math.inf)
         if x is None or cond > 1e8:
-            rep.count("filtered_ill_conditioned")
+            if cfg["ns"] == 0:
+                rep.count("filtered_ill_conditioned")
             skip_inv = "ill-conditioned"
         else:
-            oracle = x
+            oracle = x if cfg["ns"] == 0 else None
             for k, i in enumerate(free):
                 if abs(x[k]) < 1e-6:
                     zero_free.add(i)
@@ -335,9 +360,10 @@ def _check(rep: Report, M, name, pts, faces, cfg, want_sing=True, relabel_tag=No
     cancelled = set()
     if el == "vertices":
         for v in fixed:
-            if abs(var0[v]) < 1e-8 and (deg[v] >= 3 or (cfg["flat"] and order % 2 == 1)):
+            if abs(var0[v]) < 1e-8:
                 cancelled.add(v)
                 rep.count("excluded_cancelled_constraint")
+                rep.count("excluded_cancelled_constraint:deg%s:%s" % ("2" if deg[v] <= 2 else ">=3", "odd" if order % 2 else "even"))
 
     # ---- clause: unit modulus on every element
     for i in range(nel):
@@ -480,7 +506,17 @@ def _check(rep: Report, M, name, pts, faces, cfg, want_sing=True, relabel_tag=No
             if abs(var[u]) < 0.5:
                 continue
             inv[(u, v)] = (var[u] * cmath.exp(-1j * order * f.conn.transport(u, v)), u in zero_free or u in cancelled)
-    return {"inv": inv, "skip": skip_inv, "icls": icls}
+    tag = ""
+    if el == "faces":
+        for t in fixed:
+            if sum(1 for a, b in zip(geo.F[t], geo.F[t][1:] + geo.F[t][:1]) if (min(a, b), max(a, b)) in S) >= 2:
+                tag = ":corner_faces"
+                break
+    elif cfg["sn"] and order % 2 == 0 and any(v not in geo.border_vertices for v in fixed):
+        tag = ":interior_feature_vertices:geometric_init"
+    if not tag:
+        rep.flag("invariance_unambiguous:" + el)
+    return {"inv": inv, "skip": skip_inv, "icls": icls + tag}
 
 
 def _lap_name(cfg):
@@ -501,15 +537,16 @@ def _sweep(task, rep, M):
     import numpy as np
     from mc import c18_lib as L
     pts, faces, el = task["pts"], [tuple(f) for f in task["faces"]], task["el"]
-    for cfg in _configs(el):
+    cfgs = _configs(el, task["maxdev"])
+    for cfg in cfgs:
         _check(rep, M, task["mesh"], pts, faces, cfg)
     if task["planar"] is not None:
         flat_pts = L.flat(task["planar"])
-        for cfg in _configs(el, flat=True):
+        for cfg in _configs(el, task["maxdev"], flat=True):
             _check(rep, M, task["mesh"] + ":planar", flat_pts, faces, cfg)
         _operator_identities(task, rep, M, flat_pts, faces, el)
     if len(rep.samples) < 1:
-        rep.sample({"mesh": task["mesh"], "faces": task["faces"], "element": el, "configurations": len(_configs(el))})
+        rep.sample({"mesh": task["mesh"], "faces": task["faces"], "element": el, "configurations": len(cfgs)})
 
 
 def _operator_identities(task, rep, M, flat_pts, faces, el):
